@@ -8,7 +8,7 @@ set -u
 P="$1"; X="$2"; shift 2
 HERE="$(cd "$(dirname "$0")/.." && pwd)"; VF="${VF:-$HERE}"
 PATCH="/tmp/mut/$P-out/$X.patch"; [ -f "$PATCH" ] || PATCH="/verif/seeded/$P-$X/patch.diff"
-ISO=/tmp/mut/iso
+ISO="${ISO:-/tmp/mut/iso}"   # ISO=<dir> selects another slot, so several trials can run side by side
 mkdir -p "$ISO"
 if [ ! -d "$ISO/repo" ]; then git -C /repo worktree add --detach "$ISO/repo" HEAD >/dev/null 2>&1 || exit 2; fi
 ( cd "$ISO/repo" && git checkout -q -- . && git clean -qfd && git apply "$PATCH" ) || { echo "patch does not apply"; exit 2; }
